@@ -101,9 +101,14 @@ namespace OP2Utility::Archive
 	// Returns nonzero if successful and zero otherwise.
 	void ClmFile::CreateArchive(const std::string& archiveFilename, std::vector<std::string> filesToPack)
 	{
-		// Sort files alphabetically based on the filename only (not including the full path).
-		// Packed files must be locatable by a binary search of their filename.
-		std::sort(filesToPack.begin(), filesToPack.end(), ComparePathFilenames);
+		// Sort files alphabetically based on the name stored in the archive: the filename without its path and without its extension.
+		// Packed files must be locatable by a binary search of that name. Sorting by the full filename misplaces a name that is a
+		// prefix of another one when the character following the prefix sorts below '.' ("a-b.wav" would come before "a.wav").
+		std::sort(filesToPack.begin(), filesToPack.end(), [](const std::string& path1, const std::string& path2) {
+			return StringUtility::IsEqualCaseInsensitive(
+				XFile::ChangeFileExtension(XFile::GetFilename(path1), ""),
+				XFile::ChangeFileExtension(XFile::GetFilename(path2), ""));
+		});
 
 		std::vector<std::unique_ptr<Stream::FileReader>> filesToPackReaders;
 
